@@ -101,11 +101,11 @@ class SQuad(EditableModule):
             y = y.transpose(dim, -1)
         if y.shape[-1] != self.nx:
             raise RuntimeError("The length of integrated dimension does not match with x")
-        res = self.obj.integrate(y)
-        if keepdim:
-            res = res.unsqueeze(-1)
+        res = self.obj.integrate(y).unsqueeze(-1)
         if swapaxes:
             res = res.transpose(dim, -1)
+        if not keepdim:
+            res = res.squeeze(dim)
         return res
 
     def getparamnames(self, methodname: str, prefix: str = "") -> List[str]:
